@@ -82,7 +82,7 @@ class UpdateReferenceInList_Remove(Contract):
         return [Case("remove", [selfo, lst, old, None], post, pre=pre, zh=h0, invariants=inv,
                      options=dict(kinds=kinds(g), ref_fields=("line",)),
                      replay=lambda w: {"target": "bounded.replay_helpers:update_reference_in_list_cases"},
-                     confirm=lambda w, out: out.get("kind") != "return" or out.get("value") is not True)]
+                     confirm=battery_confirm)]
 
 
 @register
@@ -135,4 +135,4 @@ class UpdateReferenceInList_Replace(Contract):
         return [Case("replace", [selfo, lst, old, new], post, pre=pre, zh=h0, invariants=inv, models=models,
                      options=dict(kinds=kinds(g), ref_fields=("line",)), symbols={"newref_is_complement_of_oldref": compl},
                      replay=lambda w: {"target": "bounded.replay_helpers:update_reference_in_list_cases"},
-                     confirm=lambda w, out: out.get("kind") != "return" or out.get("value") is not True)]
+                     confirm=battery_confirm)]
